@@ -213,8 +213,13 @@ int _tmain(int argc, const char_t** argv)
   if (yr_compiler_create(&compiler) != ERROR_SUCCESS)
     exit_with_code(EXIT_FAILURE);
 
-  if (define_external_variables(ext_vars, NULL, compiler) != ERROR_SUCCESS)
+  result = define_external_variables(ext_vars, NULL, compiler);
+
+  if (result != ERROR_SUCCESS)
+  {
+    fprintf(stderr, "error: could not define external variables (%d)\n", result);
     exit_with_code(EXIT_FAILURE);
+  }
 
   if (atom_quality_table != NULL)
   {
